@@ -129,7 +129,7 @@ fn generate(seed: u64, idx: u64, capacity: usize) -> Scenario {
                 }
                 _ => pool[r.below(pool.len())],
             };
-            if !big && r.chance(1, 25) {
+            if !big && r.chance(1, 25) && std::env::var("VERIF_C17_NO_CRASH").is_err() {
                 reqs.push(Req::Crash);
             }
             if r.chance(1, 4) {
@@ -519,6 +519,15 @@ fn oracle_of(panic_msg: &str) -> String {
         // OS thread): an artefact of the simulation, not an interleaving of real threads
         return "harness-limit-thread-local".into();
     }
+    // a panic raised inside shuttle's own sources (an internal assertion of its Mutex/scheduler model)
+    // says nothing about the code under test
+    if let Some(first) = panic_msg.lines().next() {
+        if let Some((_, loc)) = first.rsplit_once(" @ ") {
+            if loc.contains("/shuttle-") {
+                return "harness-limit-shuttle-internal".into();
+            }
+        }
+    }
     if l.contains("deadlock") {
         return "deadlock".into();
     }
@@ -735,7 +744,8 @@ fn driver(tier: &str) -> i32 {
     for k in ["two_threads_generated_same_size_concurrently", "eviction_ran", "evicted_size_requested_again", "concurrent_misses_while_cache_full"] {
         total.probes.entry(k.to_string()).or_insert(0);
     }
-    if capacity == 3 {
+    let crash_fault_on = std::env::var("VERIF_C17_NO_CRASH").is_err();
+    if capacity == 3 && crash_fault_on {
         total.probes.entry("client_crash_inside_plan_generation".to_string()).or_insert(0);
     }
 
@@ -745,6 +755,21 @@ fn driver(tier: &str) -> i32 {
         if f.panic.starts_with("HARNESS:") {
             eprintln!("HARNESS-ERROR: {}", f.panic);
             return 2;
+        }
+        if oracle_of(&f.panic) == "harness-limit-shuttle-internal" {
+            let has_crash = f.scenario.threads.iter().flatten().any(|r| matches!(r, Req::Crash));
+            if has_crash && std::env::var("VERIF_C17_NO_CRASH").is_err() {
+                // Known gap of the model: a task that panics while it holds a shuttle Mutex (the
+                // provoked client crash, in code that generates the plan under the lock) trips an
+                // internal assertion of shuttle's Mutex. Under std the lock is poisoned and the
+                // code under test recovers (or fails to: the sequential engine injects the same
+                // crash against the real std Mutex). The batch is run again without that fault.
+                eprintln!("NOTE: C17 ({flavour}): a client crash while the cache lock is held cannot be simulated by shuttle ({}); re-running the batch without the client-crash fault (the sequential engine injects it against the real std Mutex)", f.panic.lines().next().unwrap_or(""));
+                let st = std::process::Command::new(self_exe()).arg(tier).env("VERIF_C17_NO_CRASH", "1").status();
+                return st.ok().and_then(|s| s.code()).unwrap_or(2);
+            }
+            eprintln!("HARNESS-ERROR: panic inside shuttle's own code ({}); this is a limit of the simulation, not a reported violation; the sequential engine still runs.", f.panic.lines().next().unwrap_or(""));
+            return 3;
         }
         if oracle_of(&f.panic) == "harness-limit-thread-local" {
             eprintln!("HARNESS-ERROR: the code under test keeps state in std thread-local storage on the cache path; shuttle runs all simulated threads on one OS thread, so their thread-locals alias ({}). This is a limit of the simulation, not a reported violation; the sequential engine still runs.", f.panic.lines().next().unwrap_or(""));
@@ -792,6 +817,7 @@ fn driver(tier: &str) -> i32 {
         "scenarios": total.scenarios, "executions": total.executions, "schedules_per_scenario": iters,
         "distinct_traces": distinct.len(), "trace_events": total.steps, "probes": total.probes,
         "wall_s": wall, "violations": violations,
+        "client_crash_fault": if crash_fault_on { "enabled" } else { "disabled for this batch: shuttle cannot model a panic that unwinds through a held Mutex (the sequential engine injects the crash against the real std Mutex)" },
         "sample_scenario": sample,
     });
     let fdir = verif_dir.join("shuttle17").join("target");
